@@ -446,7 +446,10 @@ def bounds(tier):
             'opt_eject_every': 'None,0..n,default(10000)', 'max_buffer_size': '1..n', 'input_shapes': ['list', 'tuple', 'single', 'bare'],
             'bam_max_fragments': 3 if tier == 'quick' else 4, 'bam_classes': BAM_CLASSES[tier], 'bam_letters': BAM_LETTERS[tier],
             'bam_fetch': [repr(f) for f in BAM_FETCH], 'bam_iterator_classes': ['MatePairIterator', 'ReadIterator'],
-            'unsorted_max_fragments': 3 if tier == 'quick' else 4, 'unsorted_classes': UNSORTED_CLASSES[tier]}
+            'unsorted_max_fragments': 3 if tier == 'quick' else 4, 'unsorted_classes': UNSORTED_CLASSES[tier],
+            'lockstep_max_fragments': (2, 1) if tier == 'quick' else (2, 2), 'lockstep': 'all ordered pairs of multisets (sizes: A, B; thorough also A of 3 with B of 1), two iterator '
+            'objects advanced alternately (A first / B first; B constructed before A starts / after A\'s first molecule), '
+            'eject_every None/0/1, pooling 0/1, classes nla and plain'}
 
 
 def build_plain(word):
@@ -610,6 +613,80 @@ def check_word(word, tier, kind='site'):
     return [(s, d) for s, d in viol.items()], nruns, nonprefix, ejected
 
 
+def _make_iter(word, cls, e, pooling, cache):
+    from singlecellmultiomics.molecule import MoleculeIterator, NlaIIIMolecule, CHICMolecule, Molecule
+    from singlecellmultiomics.fragment import NlaIIIFragment, CHICFragment, Fragment
+    reads = build(word, cls)
+    if cls == 'plain':
+        mc, fc, fargs = Molecule, Fragment, {'umi_hamming_distance': 0}
+    elif cls == 'nla':
+        mc, fc, fargs = NlaIIIMolecule, NlaIIIFragment, {'umi_hamming_distance': 0}
+    else:
+        mc, fc = CHICMolecule, CHICFragment
+        fargs = {'umi_hamming_distance': 0, 'assignment_radius': 0 if cls == 'chic0' else 15}
+    return MoleculeIterator(reads, molecule_class=mc, fragment_class=fc, check_eject_every=e, pooling_method=pooling,
+                            molecule_class_args={'cache_size': cache}, fragment_class_args=fargs, perform_qflag=False)
+
+
+LOCKSTEP_CLASSES = ['nla', 'plain']
+
+
+def check_lockstep(wa, wb, tier):
+    """Two iterator objects alive in one process (two libraries read side by side), advanced alternately - A first or B first,
+    B constructed before A starts or after A has produced its first molecule. Nothing a MoleculeIterator buffers belongs to
+    another iterator: each must emit every one of its fragments exactly once and produce the partition it produces alone."""
+    viol = {}
+    nruns = 0
+    interleaved = False
+    for cls in LOCKSTEP_CLASSES:
+        for pooling in (0, 1):
+            for e in (None, 0, 1):
+                try:
+                    alone = [partition_of(list(_make_iter(w, cls, e, pooling, 100))) for w in (wa, wb)]
+                except Exception as ex:
+                    viol.setdefault(f'lockstep:{cls}:pooling{pooling}:alone:exception:{type(ex).__name__}', {'e': e, 'ex': repr(ex)})
+                    continue
+                for first in (0, 1):
+                    for late_b in (False, True):
+                        nruns += 1
+                        outs = [[], []]
+                        try:
+                            its = [_make_iter(wa, cls, e, pooling, 100), None]
+                            gens = [iter(its[0]), None]
+                            if late_b:
+                                try:
+                                    outs[0].append(next(gens[0]))
+                                except StopIteration:
+                                    pass
+                            its[1] = _make_iter(wb, cls, e, pooling, 100)
+                            gens[1] = iter(its[1])
+                            alive = [True, True]
+                            while any(alive):
+                                for idx in ((0, 1) if first == 0 else (1, 0)):
+                                    if alive[idx]:
+                                        try:
+                                            outs[idx].append(next(gens[idx]))
+                                        except StopIteration:
+                                            alive[idx] = False
+                        except Exception as ex:
+                            viol.setdefault(f'lockstep:{cls}:pooling{pooling}:exception:{type(ex).__name__}',
+                                            {'e': e, 'first': 'AB'[first], 'b_constructed_late': late_b, 'ex': repr(ex)})
+                            continue
+                        if outs[0] and outs[1] and len(outs[0]) + len(outs[1]) > 2:
+                            interleaved = True
+                        for idx in (0, 1):
+                            part = partition_of(outs[idx])
+                            if part != alone[idx]:
+                                names = [x for g in part for x in g]
+                                want = [x for g in alone[idx] for x in g]
+                                what = ('fragment-emitted-twice' if len(names) != len(set(names)) else
+                                        'fragment-lost-or-foreign' if sorted(names) != sorted(want) else 'partition-differs-from-running-alone')
+                                viol.setdefault(f'lockstep:{cls}:pooling{pooling}:{what}',
+                                                {'e': e, 'iterator': 'AB'[idx], 'first': 'AB'[first], 'b_constructed_late': late_b,
+                                                 'got': part, 'alone': alone[idx]})
+    return [(s_, d) for s_, d in viol.items()], nruns, interleaved
+
+
 def multisets(letters, kmax):
     out = []
     for k in range(1, kmax + 1):
@@ -634,6 +711,12 @@ def shards(tier):
     out += [('bam', bm[i:i + 12]) for i in range(0, len(bm), 12)]
     um = multisets(range(len(LETTERS)), b['unsorted_max_fragments'])
     out += [('unsorted', um[i:i + 48]) for i in range(0, len(um), 48)]
+    la, lb = b['lockstep_max_fragments']
+    pairs = [(a, c) for a in multisets(range(len(LETTERS)), la) for c in multisets(range(len(LETTERS)), lb)]
+    if tier == 'thorough':
+        l3 = multisets(range(len(LETTERS)), 3)
+        pairs += [(a, c) for a in l3 if len(a) == 3 for c in multisets(range(len(LETTERS)), 1)]
+    out += [('lockstep', pairs[i:i + 160]) for i in range(0, len(pairs), 160)]
     return out
 
 
@@ -669,6 +752,16 @@ def run_shard(shard, tier, acc):
             for sig, d in viols:
                 acc.violation(sig, case, d)
         return
+    if kind == 'lockstep':
+        for a, c in shard[1]:
+            wa, wb = next(iter(orders(a))), next(iter(orders(c)))
+            viols, nruns, inter = check_lockstep(wa, wb, tier)
+            case = {'word': list(wa), 'word_b': list(wb), 'kind': 'lockstep'}
+            acc.case(case, transitions=nruns * (len(wa) + len(wb)), execs=nruns, nontrivial=inter, states=nruns,
+                     outcome=f'lockstep:interleaved={inter}')
+            for sig, d in viols:
+                acc.violation(sig, case, d)
+        return
     kind, mss = shard
     for ms in mss:
         for word in orders(ms, kind):
@@ -689,4 +782,6 @@ def replay(case):
         return check_bam_word(tuple(case['word']), 'thorough')[0]
     if kind == 'unsorted':
         return check_unsorted_ms(tuple(case['word']), 'thorough')[0]
+    if kind == 'lockstep':
+        return check_lockstep(tuple(case['word']), tuple(case['word_b']), 'thorough')[0]
     return check_word(tuple(case['word']), 'thorough', kind)[0]
